@@ -27,7 +27,19 @@
 #define VP_MEMCPY_MAX 256
 #endif
 
+#ifdef VP_SCALAR_MEM
+/* Tier-K backend: one scalar global per word (generated vp_scalar_mem.h).  CBMC's thread encoding turns ANY read of an
+ * array cell -- even at a constant index -- into shared-read events on every cell of the array; with scalars a
+ * constant-address access is one event. */
+#include "vp_scalar_mem.h"
+#define VP_RDW(i) vp_rdw(i)
+#define VP_WRW(i, v) vp_wrw((i), (v))
+#else
 uint64_t VP_MEM[VP_WORDS];
+#define VP_RDW(i) VP_MEM[i]
+#define VP_WRW(i, v) (VP_MEM[i] = (v))
+#endif
+void vp_initw(uint64_t i, uint64_t v) { VP_WRW(i, v); }
 uint8_t vp_alive[VP_NSLOTS];   /* 0 dead / never allocated, 1 global, 2 heap, 3 stack */
 uint8_t vp_blks[VP_NSLOTS];    /* at the first slot of a live heap block: its size in slots */
 uint64_t vp_nalloc, vp_nfree, vp_live_blocks;
@@ -36,16 +48,12 @@ VP_THREAD_LOCAL int vp_tid;
 VP_THREAD_LOCAL uint64_t vp_hp, vp_hp_end, vp_sp, vp_sp_end;
 VP_THREAD_LOCAL int vp_spurious_left;
 
-#ifdef __CPROVER__
+#ifdef VP_CBMC
 uint64_t nondet_u64(void);
 uint8_t nondet_u8(void);
 #define VP_NONDET64() nondet_u64()
 #define VP_NONDETBOOL() (nondet_u8() & 1)
-void vp_reach_impl(const char *msg, int dummy) {
-#ifdef WITNESS
-  __CPROVER_assert(0, "WITNESS reached");
-#endif
-}
+void vp_reach_impl(const char *msg, int dummy) {}
 #else
 #include <stdio.h>
 #include <stdlib.h>
@@ -80,6 +88,10 @@ void vp_init(void) {
 /* ------------------------------------------------------------------------------------------------ plain memory */
 static inline void vp_chk(uint64_t a, int sz) {
   VP_ASSERT(a < VP_BYTES && (a & 7) + (uint64_t)sz <= 8, "memory access out of modelled range or straddling a word");
+#ifdef VP_NO_ALIVE
+  VP_ASSERT(a >= 64, "null pointer dereference");
+  return;
+#endif
   VP_ASSERT(((a >= 64) & (a < VP_ARENA_BASE)) /* globals: always alive */ | vp_alive[(a & (VP_BYTES - 1)) >> VP_SLOT_SHIFT] != 0,
             "access to dead or unallocated memory (use after free / return / null)");
 }
@@ -87,17 +99,17 @@ static inline void vp_chk(uint64_t a, int sz) {
 static inline uint64_t vp_mask(int sz) { return sz >= 8 ? ~0UL : ((1UL << (8 * sz)) - 1); }
 
 static inline uint64_t vp_rd(uint64_t a, int sz) {
-  uint64_t w = VP_MEM[(a & (VP_BYTES - 1)) >> 3];
+  uint64_t w = VP_RDW((a & (VP_BYTES - 1)) >> 3);
   if (sz == 8) return w;
   return (w >> ((a & 7) * 8)) & vp_mask(sz);
 }
 
 static inline void vp_wr(uint64_t a, int sz, uint64_t v) {
   uint64_t i = (a & (VP_BYTES - 1)) >> 3;
-  if (sz == 8) { VP_MEM[i] = v; return; }
+  if (sz == 8) { VP_WRW(i, v); return; }
   unsigned sh = (unsigned)((a & 7) * 8);
   uint64_t m = vp_mask(sz) << sh;
-  VP_MEM[i] = (VP_MEM[i] & ~m) | ((v << sh) & m);
+  VP_WRW(i, (VP_RDW(i) & ~m) | ((v << sh) & m));
 }
 
 #ifdef VP_HB
@@ -167,7 +179,7 @@ uint64_t vp_alloca(uint64_t n, int align) {
   VP_ASSERT(end <= vp_sp_end, "VP-BOUND: modelled stack exhausted");
   for (uint64_t s = base >> VP_SLOT_SHIFT; s <= ((end - 1) >> VP_SLOT_SHIFT); s++) vp_alive[s & (VP_NSLOTS - 1)] = 3;
 #ifdef VP_UNINIT_NONDET
-  for (uint64_t i = base; i < end; i += 8) VP_MEM[i >> 3] = VP_NONDET64();
+  for (uint64_t i = base; i < end; i += 8) VP_WRW(i >> 3, VP_NONDET64());
 #endif
   vp_sp = end;
   return base;
@@ -184,7 +196,7 @@ uint64_t vp_malloc(uint64_t n) {
   vp_hp = end;
   for (uint64_t s = 0; s < VP_MAXBLK_SLOTS && s < slots; s++) vp_alive[((base >> VP_SLOT_SHIFT) + s) & (VP_NSLOTS - 1)] = 2;
 #ifdef VP_UNINIT_NONDET
-  for (uint64_t i = base; i < end; i += 8) VP_MEM[i >> 3] = VP_NONDET64();
+  for (uint64_t i = base; i < end; i += 8) VP_WRW(i >> 3, VP_NONDET64());
 #endif
   VP_ATOMIC_BEGIN();
   vp_blks[(base >> VP_SLOT_SHIFT) & (VP_NSLOTS - 1)] = (uint8_t)slots;
@@ -391,15 +403,16 @@ void _ZSt24__throw_out_of_range_fmtPKcz(uint64_t s, ...) { VP_FAIL("std::__throw
 void _ZSt25__throw_bad_function_callv(void) { VP_FAIL("std::__throw_bad_function_call"); }
 
 /* ------------------------------------------------------------------------------------------------ harness API (vp.h) */
-uint32_t vp_nondet_u32(void) { return (uint32_t)VP_NONDET64(); }
-uint64_t vp_nondet_u64(void) { return VP_NONDET64(); }
-uint8_t vp_nondet_u8(void) { return (uint8_t)VP_NONDET64(); }
-uint8_t vp_nondet_bool(void) { return (uint8_t)(VP_NONDET64() & 1); }
+uint64_t vp_nd_log; /* every harness-level nondet value passes through here so that a trace lists them in call order */
+uint32_t vp_nondet_u32(void) { vp_nd_log = (uint32_t)VP_NONDET64(); return (uint32_t)vp_nd_log; }
+uint64_t vp_nondet_u64(void) { vp_nd_log = VP_NONDET64(); return vp_nd_log; }
+uint8_t vp_nondet_u8(void) { vp_nd_log = (uint8_t)VP_NONDET64(); return (uint8_t)vp_nd_log; }
+uint8_t vp_nondet_bool(void) { vp_nd_log = VP_NONDET64() & 1; return (uint8_t)vp_nd_log; }
 void vp_assume(uint8_t c) { VP_ASSUME(c); }
 uint64_t vp_alloc_count(void) { return vp_nalloc; }
 uint64_t vp_live_count(void) { return vp_live_blocks; }
 uint64_t vp_thread_id(void) { return (uint64_t)vp_tid; }
-#ifndef __CPROVER__
+#ifndef VP_CBMC
 void vp_observe(uint64_t tag, uint64_t v) { printf("VP-OBS %lu %lu\n", tag, v); }
 #else
 void vp_observe(uint64_t tag, uint64_t v) {}
